@@ -244,6 +244,9 @@ Definition next_phase (c : cfg) (ph : phase) (k : skind) (ok : bool) : wnext :=
   | PhUpdate, _ => if ok then NCommit else NPhase PhTomb
   end.
 
+Definition close_ok (ph : phase) (k : skind) (ok : bool) : bool :=
+  match ph, k, ok with PhWrite, KClose, true => true | _, _, _ => false end.
+
 Definition mk_wack (x : res) (l : list nat) : workerpc := match l with [] => WIdle | _ => WAck x l end.
 Definition mk_aab (l : list nat) : actorpc := match l with [] => AIdle | _ => AAbandon l end.
 
@@ -270,7 +273,7 @@ Definition step (c : cfg) (s : state) (l : label) : option state :=
   (* IngestRows / Flush: under the read lock, after the stopped test *)
   | LTry r k ch =>
       if negb (stopped s) && kind_wf k && negb (mem r (map fst (reqs s)))
-      then Some (set_pending (pending s ++ [r]) (set_reqs ((r, (k, ch)) :: reqs s) s)) else None
+      then Some (set_pending (pending s ++ [r]) (set_reqs (reqs s ++ [(r, (k, ch))]) s)) else None
   | LRefuse => if stopped s then Some s else None
   | LSent r =>
       if mem r (pending s) && (len (ich s) <? c_icap c)
@@ -365,13 +368,15 @@ Definition step (c : cfg) (s : state) (l : label) : option state :=
       match apc s with AEnq f => if fcanc s then Some (set_apc (mk_aab (fw f)) s) else None | _ => None end
   | LDrainEnd =>
       match apc s, amode s, ich s with
-      | AIdle, MDrain, [] => Some (set_amode MFinal (if buf_nonempty (buf s) then start_flush s else s))
+      | AIdle, MDrain, [] => if buf_nonempty (buf s) then Some (set_amode MFinal (start_flush s)) else Some (set_amode MFinal s)
       | _, _, _ => None
       end
   | LActorExit => match apc s, amode s with AIdle, MFinal => Some (set_apc AExited s) | _, _ => None end
   (* flush worker *)
   | LWorkerCtxDone =>
       match wpc s, wmode s with WIdle, MRun => if ctxc s then Some (set_wmode MDrain s) else None | _, _ => None end
+  (* wlive: the flush context was live when the request was taken; a request taken after the
+     cancellation is necessarily abandoned by handleFlush's ctx.Err() test *)
   | LWorkerTake =>
       match wpc s, fch s with
       | WIdle, f :: t => Some (set_wpc (WHold f) (set_fch t (set_wclosed false (set_wlive (negb (fcanc s)) s))))
@@ -401,7 +406,7 @@ Definition step (c : cfg) (s : state) (l : label) : option state :=
           if skind_eqb k k' then
             match next_phase c ph k ok with
             | NPhase ph' =>
-                Some (set_wpc (WStep f ph') (match ph, k, ok with PhWrite, KClose, true => set_wclosed true s | _, _, _ => s end))
+                Some (set_wpc (WStep f ph') (set_wclosed (close_ok ph k ok || wclosed s) s))
             | NFail => Some (set_wpc (mk_wack RErr (fw f)) s)
             | NCommit =>
                 Some (set_wpc (mk_wack RNil (fw f))
@@ -442,16 +447,19 @@ Fixpoint run (c : cfg) (s : state) (ls : list label) : option state :=
 (* ---- observables ---- *)
 (* the in-flight requests, oldest first: worker's hand, flush queue, the request the actor is
    enqueueing / abandoning, the actor's buffer, the request in the actor's hand, the ingest queue *)
-Definition wk_part (s : state) : list nat :=
-  match wpc s with
+Definition wk_of (w : workerpc) : list nat :=
+  match w with
   | WHold f | WStep f _ | WIn f _ _ => fw f
   | WAck _ l => l
   | _ => []
   end.
-Definition a_pre (s : state) : list nat :=
-  match apc s with AEnq f => fw f | AAbandon l => l | _ => [] end.
-Definition a_post (s : state) : list nat :=
-  match apc s with AHold r | AAckNow r _ => [r] | _ => [] end.
+Definition pre_of (a : actorpc) : list nat :=
+  match a with AEnq f => fw f | AAbandon l => l | _ => [] end.
+Definition post_of (a : actorpc) : list nat :=
+  match a with AHold r | AAckNow r _ => [r] | _ => [] end.
+Definition wk_part (s : state) : list nat := wk_of (wpc s).
+Definition a_pre (s : state) : list nat := pre_of (apc s).
+Definition a_post (s : state) : list nat := post_of (apc s).
 Definition pipeline (s : state) : list nat :=
   wk_part s ++ concat (map fw (fch s)) ++ a_pre s ++ b_w (buf s) ++ a_post s ++ ich s.
 Definition unanswered (s : state) : Z := len (pipeline s).
@@ -471,7 +479,7 @@ Definition ack (s : state) (r : nat) : option res :=
   match assoc r (finished s) with Some (FAnswered x) => Some x | _ => None end.
 Definition stop_returned (s : state) : option res := match spc s with SReturned x => Some x | _ => None end.
 Definition bound (c : cfg) : Z := c_icap c + 1 + (c_fcap c + 2) * c_max_rows c.
-Definition cfg_wf (c : cfg) : Prop := 0 < c_icap c /\ 0 < c_fcap c /\ 0 < c_max_rows c.
+Definition cfg_wf (c : cfg) : Prop := 0 < c_icap c /\ 0 < c_fcap c /\ 0 < c_max_rows c /\ 0 < c_max_bytes c.
 
 (* the code as it is now (all fixes in), and the pinned tree *)
 Definition fixed (c : cfg) : Prop := c_fixD5 c = true /\ c_fixD6 c = true /\ c_fixD9 c = true.
